@@ -116,7 +116,7 @@ META = {
                 "when it builds), running all on the same cases, and comparing each with the model under the matching Cfg and with "
                 "the default build (tags included wherever tag prediction is compiled in).",
         "design_ref": "DESIGN.md §6 C13",
-        "note": _common_note + "charwise-pma, std and portable-simd have no counterpart in the model (identified implementations); for them the "
+        "note": _common_note + "One open known finding (F-C13dup, known_findings.json / DESIGN.md 7.2a): a model file with a repeated character-type n-gram is refused by builds with cache-type-score and scored by builds without; the check exercises it in every build and prints KNOWN-FINDING. charwise-pma, std and portable-simd have no counterpart in the model (identified implementations); for them the "
                 "check is the feature-matrix run (differential), not a theorem. Tag equality across builds is a differential result until C06 is proved.",
         "technique": "Lean 4 proof (corollaries of C01_scores over Cfg) + per-feature-subset differential builds",
     },
